@@ -26,7 +26,7 @@ use std::collections::HashMap;
 #[cfg(any(kani, netflow_parser_verif))]
 use crate::verif_shim::VMap as BTreeMap;
 #[cfg(any(kani, netflow_parser_verif))]
-use crate::verif_shim::VMap as HashMap;
+use crate::verif_shim::VHashMap as HashMap;
 
 const TEMPLATE_ID: u16 = 0;
 const OPTIONS_TEMPLATE_ID: u16 = 1;
